@@ -137,6 +137,42 @@ def run_chunk(arg):
     return out
 
 
+def position_chunk(items):
+    """(d) a target rule after N filler rules: its rule index, the indexes of its strings and (two namespaces) its namespace index cross the byte and 64-bit
+    word boundaries of the scanner's per-rule / per-string / per-namespace bitmaps"""
+    w = yv.get_worker("plain")
+    P = pool(); bufs = buffers()
+    byname = {r["name"]: r for r in P}
+    out = []
+    for (tname, N, fkind, nsmode) in items:
+        r = byname[tname]
+        parts = [byname[d] for d in r["deps"]] + [r]
+        head = "".join('import "%s"\n' % i for p_ in parts for i in p_["imports"])
+        def filler(i):
+            if fkind == "nostrings": return "rule fill%d { condition: filesize == %d }" % (i, 100000 + i)
+            if fkind == "one-string": return 'rule fill%d { strings: $f = "fill%04dq" condition: $f }' % (i, i)
+            if fkind == "private": return 'private rule fill%d { strings: $f = "fill%04dq" $g = "gill%04dq" condition: $f or $g }' % (i, i, i)
+            return 'rule fill%d { strings: $f = "fill%04dq" $g = { 66 69 %02x %02x [2-4] 71 } $h = /hil%04dq+/ condition: any of them }' % (i, i, i & 0xff, (i >> 8) & 0xff, i)
+        fill = "\n".join(filler(i) for i in range(N))
+        tns = "-" if nsmode == "one" else "n2"
+        adds = [("-" if nsmode == "one" else "n1", fill)] if N else []
+        adds.append((tns, head + "\n".join(rule_src(p_) for p_ in parts)))
+        label = "%s after %d %s fillers (%s namespace)" % (tname, N, fkind, nsmode)
+        err, tr, rcs = compile_and_trace(w, adds, bufs)
+        if err is not None:
+            out.append((label, "C05:set-does-not-compile", dict(errors=err, label=label))); continue
+        exp, erc = alone_trace(w, P, [x["name"] for x in P].index(tname), tns, bufs)
+        got = tr.get("%s:%s" % ("default" if tns == "-" else tns, tname))
+        if r["priv"]: out.append((label, None, None)); continue
+        if got != exp or rcs != erc:
+            bi = [k for k, (a, b) in enumerate(zip(got or [], exp or [])) if a != b]
+            out.append((label, "C05:result-depends-on-position:rule=%s:%s" % (tname, fkind), dict(rule=tname, fillers=N, filler_kind=fkind, namespaces=nsmode, buffer_hex=bufs[bi[0]].hex() if bi else None,
+                                                                                              alone=exp[bi[0]] if bi else exp, together=got[bi[0]] if bi else got, rcs=[rcs, erc])))
+        else:
+            out.append((label, None, None))
+    return out
+
+
 def distribution_cases():
     """a 4-rule namespace text cut at rule boundaries into <= 3 add calls; and nested includes"""
     P = {r["name"]: r for r in pool()}
@@ -222,6 +258,16 @@ def main():
             if sig: ck.violation(sig, det)
             elif nsets % 4999 == 0: ck.sample(dict(rule_set=label, buffers=len(bufs), outcome="every rule equals its solo trace"))
     ck.sub("twin", ordered_rule_sets=nsets, pool=len(P), buffers=len(bufs))
+    # ---- (d) position family
+    targets = [r["name"] for r in P if not r["glob"]][:: (3 if quick else 1)]
+    Ns = (7, 8, 9, 63, 64, 65) if quick else (1, 7, 8, 9, 15, 16, 17, 31, 32, 33, 63, 64, 65, 127, 128, 129, 255, 256, 257)
+    pitems = [(t, N, fk, nsm) for t in targets for N in Ns for fk in (("nostrings", "three-strings") if quick else ("nostrings", "one-string", "private", "three-strings")) for nsm in ("one", "two")]
+    npos = 0
+    for res in yv.pmap(position_chunk, yv.chunked(pitems, 12), ck):
+        for (label, sig, det) in res:
+            npos += 1; ck.cov["evaluations"] += len(bufs)
+            if sig: ck.violation(sig, det)
+    ck.sub("position", cases=npos, filler_counts=list(Ns), targets=len(targets))
     # ---- (c) automaton sub-space
     strs = ["".join(t) for L in (3, 4, 5) for t in itertools.product("ab", repeat=L)]
     asets = [(s,) for s in strs]
@@ -250,7 +296,7 @@ def main():
     ck.cov["rule"] = ("(a) every ordered sub-multiset of size<=3 of a %d-rule pool (dependencies first), in one namespace and alternating over two, %d buffers: each rule's "
                       "message incl. match lists vs its solo compile; (b) 11 source distributions of a 4-rule namespace (add calls, nested includes); (c) every ordered "
                       "pair and every 3-subset (3 orders; thorough: all orders + 4-subsets) of the 56 strings of {a,b}^3..5, one rule per string, over all buffers of "
-                      "{a,b}^<=10 vs a naive search; non-trivial = rule sets compared + (set, buffer) pairs with an expected match") % (len(P), len(bufs))
+                      "{a,b}^<=10 vs a naive search; (d) each pool rule after N filler rules of four kinds, N around 8 / 64 / 128 / 256, one or two namespaces; non-trivial = rule sets compared + (set, buffer) pairs with an expected match") % (len(P), len(bufs))
     ck.finish()
 
 
